@@ -74,6 +74,13 @@ class P(Prop):
                 if r != want:
                     self.fail("search", "dimacs-projected-count", f"projected count of the emitted instance {r} != {want}",
                               {"c": cj, "assumptions": A, "fn": "approx"})
+            # sat.model_count against the model's blocking-clause loop run with the DPLL instance of the solver contract
+            if len(c.startpoints()) <= 6:
+                o, r = call(cg.sat.model_count, c, A)
+                m = drv.ask({"op": "model_count", "c": cj, "assumptions": [[k, bool(v)] for k, v in A.items()], "seed": seed})
+                self.corr_cases += 1
+                if m["outcome"] != o or (o == "ok" and m["r"] != r):
+                    self.fail("corr", "model_count", f"model_count: impl={o},{r} model={m}", {"c": cj, "assumptions": A, "seed": seed})
             if self.too_many():
                 break
 
